@@ -298,7 +298,7 @@ def main(tier, seed):
     hd = common.cargo_build_crate(common.instantiate_crate("hirdump"), "stable", bin_name="hirdump")
     stats = {"signatures": 0, "output_lifetimes": 0, "edges_expected": 0, "backend_edge_lists_checked": 0, "rustc_probe_pairs": 0, "rustc_model_disagreements": 0,
              "rejected_by_gate": 0, "struct_getters_checked": 0, "gc_calls": 0, "gc_objects_observed": 0, "gc_buffers_observed": 0, "gc_must_stay_alive_checked": 0,
-             "gc_collected_unborrowed": 0, "gc_calls_without_result_object": 0, "gc_released_after_results_dropped": 0, "gc_finalizer_exceptions_observed": 0}
+             "gc_collected_unborrowed": 0, "gc_calls_without_result_object": 0, "gc_released_after_results_dropped": 0, "gc_finalizer_exceptions_observed": 0, "struct_getters_evaluated": 0}
     shapes = set()
 
     def one(bi):
@@ -391,7 +391,7 @@ def main(tier, seed):
             if kind != "ok":
                 res["inconc"].append("%s: tool %s: %s" % (b, kind, str(det)[:160]))
                 continue
-            if b in ("js", "dart"):
+            if b == "dart":          # JS getters are evaluated in node (leg d) rather than parsed
                 for name, lts, fields in nested:
                     fpath = os.path.join(out, name + (".mjs" if b == "js" else ".g.dart"))
                     got = parse_struct_getters(b, open(fpath).read()) if os.path.exists(fpath) else {}
@@ -465,13 +465,33 @@ def main(tier, seed):
                 musts[(s.holder, "m")] = must
             cases += ncases
             musts.update(nmusts)
-            jsgc.write_harness(out, cases)
+            gcases = jsgc.getter_cases(nested, ncases) if ncases else []
+            jsgc.write_harness(out, cases, gcases)
             rc, o3, e3 = run(["node", "--expose-gc", os.path.join(out, "vf_gc.mjs")], timeout=600)
             if rc != 0 or not o3.strip():
                 res["inconc"].append("GC driver (%s) failed: rc=%s %s" % (abi, rc, e3[-300:]))
                 continue
             rep = json.loads(o3.strip().splitlines()[-1])
             res["st"]["gc_released_after_results_dropped"] += rep["released_after_results_dropped"]
+            for g, gc_ in zip(rep.get("getters", []), gcases):
+                if g.get("harness_error"):
+                    res["inconc"].append("getter evaluation (%s) %s: %s" % (abi, g["cls"], g["harness_error"][:200]))
+                    continue
+                name, lts, fields = [x for x in nested if x[0] == g["cls"]][0]
+                decl = "%s<%s> { %s }" % (name, ", ".join("'" + l for l in lts), ", ".join("%s: %s" % (fn, ty) for fn, ty, _ in fields))
+                for lt in lts:
+                    res["st"]["struct_getters_evaluated"] += 1
+                    exp = set(gc_["expected"][lt])
+                    got1 = set(g["before"].get(lt, []))
+                    if not exp <= got1:
+                        res["viol"].append((None, "js.abi=%s: struct `%s`: evaluating _fieldsForLifetime%s yields %s, fields borrowing '%s are %s (missing %s)" % (
+                            abi, decl, lt.upper(), sorted(got1), lt, sorted(exp), sorted(exp - got1))))
+                        continue
+                    exp2 = {(x + "#2" if x in g["replaced"] else x) for x in exp}
+                    got2 = set(g["after"].get(lt, []))
+                    if not exp2 <= got2:
+                        res["viol"].append((None, "js.abi=%s: struct `%s`: after assigning new opaques to %s in place, _fieldsForLifetime%s of the same outer object yields %s, it must yield %s (stale: %s)" % (
+                            abi, decl, g["replaced"], lt.upper(), sorted(got2), sorted(exp2), sorted(exp2 - got2))))
             res["st"]["gc_finalizer_exceptions_observed"] += len(rep.get("uncaught", []))
             res.setdefault("uncaught", []).extend(rep.get("uncaught", [])[:2])
             collected_unborrowed = 0
